@@ -1,7 +1,10 @@
 
 use crate::half_connection;
 
+#[cfg(not(uflow_verif))]
 use std::net;
+#[cfg(uflow_verif)]
+use crate::verif::net;
 
 // TODO: A Result<usize, std::io::Error> stored here could be used to forward errors to
 // client/server step/flush after the FrameSink has been used.
